@@ -32,7 +32,7 @@ func (c04) Rule() string {
 }
 func (c04) Batches(string) int { return 32 }
 func (c04) Required(string) []string {
-	return []string{"roundtrips", "const_profile", "generated", "with_source_modules", "with_builtin_modules", "error_outcomes_with_trace", "kind.float", "kind.string", "kind.compiledFunction", "kind.map"}
+	return []string{"roundtrips", "const_profile", "generated", "with_source_modules", "with_builtin_modules", "error_outcomes_with_trace", "kind.float", "kind.string", "kind.compiledFunction", "kind.map", "boundary_roundtrips"}
 }
 func (c04) Assumptions() []string {
 	return []string{"running the original bytecode is the reference", "canon.Outcome comparison (floats by bits, traces as file:line)"}
@@ -250,6 +250,33 @@ func (m c04) Run(c *core.Ctx) {
 				c.Count("const_profile")
 				c.Nontrivial(fmt.Sprint(opt) + progHash(p))
 			}
+		}
+	}
+	// every program of the operand-width boundary enumeration (255/256/257 locals, parameters, captured variables,
+	// call arguments, 65535/65536 constants, elements, jump distances, deep nestings ...) that compiles must survive the round trip
+	for _, bcase := range c05boundary() {
+		if strings.HasPrefix(bcase.name, "fold ") || strings.Contains(bcase.name, "-token-") || strings.HasPrefix(bcase.name, "parse-errors") {
+			continue
+		}
+		idx++
+		if idx%c.NBatch != c.Batch {
+			continue
+		}
+		bcase := bcase
+		if !c.Begin(func() string { return "boundary " + bcase.name }) {
+			continue
+		}
+		p := &Program{Src: bcase.src, Tags: []string{"boundary " + bcase.name}}
+		if strings.HasPrefix(bcase.name, "locals-module-") {
+			var k int
+			fmt.Sscanf(strings.TrimPrefix(bcase.name, "locals-module-"), "%d", &k)
+			p.Modules = map[string]string{"big": c05bigModuleSrc(k)}
+		}
+		mm := moduleMapFor(p)
+		opt := []int{-1, 0}[idx%2]
+		if m.roundTrip(c, p, mm, [][]ugo.Object{{}}, opt) {
+			c.Count("boundary_roundtrips")
+			c.Nontrivial("boundary " + bcase.name)
 		}
 	}
 	n := c.Pick(400, 8000)
